@@ -136,7 +136,7 @@ public:
         bool large = w.chance(tier == "thorough" ? 0.06 : 0.04);
         if (large) {
             Json lg = Json::object();
-            std::string lf = w.pick<std::string>({"localp", "localp", "semi-localp", "fourier", "sequence", "global"});
+            std::string lf = w.pick<std::string>({"localp", "localp", "semi-localp", "fourier"}); // 1000-point sequence/global grids take minutes per construction step
             lg["family"] = lf; p["large"] = lg;
             p["budget_extra"] = w.range(4, 24);
             for (auto &c : cr.a) { c["bias"] = f.pick<std::string>({"checkpoint", "checkpoint", "any"}); c["tear"] = f.pick<double>({-1.0, -3.0, -8.0, -17.0, -40.0, 0.999, 0.5, f.uniform()}); }
